@@ -514,6 +514,8 @@ def run_world(scn, root=None, writer=None, extra_setup=None):
         comp.addSearchers(*[SimSearcher(t, i, s) for i, s in enumerate(scn.get('searchers', ()))])
         comp.addBorrowers(*[TapBorrower(t, i, AnyFileBorrower(SimBorrowReader(t, i, b), genTexts=b.get('genTexts', False)))
                             for i, b in enumerate(scn.get('borrowers', ()))])
+    if extra_setup is not None:
+        extra_setup(comp, t)
     opts = {k: v for k, v in scn.get('options', {}).items() if k in OPTION_NAMES}
     first = t
     with w:
@@ -912,13 +914,21 @@ def run_dry_world(scn, prop):
             if scn['dest'] != 'missing':
                 os.makedirs(dest)
             if scn['dest'] == 'populated':
-                for n in sorted(scn['modules']):
+                for n in sorted(scn['modules']) + list(basemibs.BASE_NAMES):
                     for sfx in ('', '.json', '.py'):
                         with open(os.path.join(dest, n + sfx), 'w') as f:
                             f.write('previous %s%s\n' % (n, sfx))
+                    # left-over bytecode in the legacy location: foreign magic / truncated header
+                    with open(os.path.join(dest, n + '.pyc'), 'wb') as f:
+                        f.write(b'\x03\xf3\r\n\x00\x00\x00\x00' if len(n) % 2 else b'\x00\x01')
         before = core.snapshot(root)
         writer, _ = c13.writer_for(scn['realwriter'], dest)
-        t = run_world(scn, root=root, writer=writer)
+
+        def real_searchers(comp, t_):
+            # the real file searchers look at the destination too (as mibdump sets them up)
+            from pysmi.searcher import AnyFileSearcher, PyFileSearcher
+            comp._searchers[:0] = [PyFileSearcher(dest), AnyFileSearcher(dest).setOptions(exts=['.json'])]
+        t = run_world(scn, root=root, writer=writer, extra_setup=real_searchers if scn.get('real_searchers', True) else None)
         w = t.world
         if t.escaped is None and scn.get('index') and scn['options'].get('dryRun') and scn.get('codegen', 'json') == 'json':
             with w:
